@@ -4,14 +4,16 @@ CONSTANTS
   N = 4
   Byz <- Byz3
   Nodes <- Obs1
-  Blk0 <- T4e
+  Blk0s <- ST4e
   MaxBlocks = 10
   MaxRestarts = 1
   ByzMode = "branch"
   ByzRanges <- R123
+  Runs = FALSE
+  BadKinds <- OnlyOk
   Fixes <- AllFixes
 VIEW view
 ACTION_CONSTRAINT GenLog
-INVARIANTS TypeOK LibOnMain ConfirmsOnMain Agreement HonestConfirms
-PROPERTIES LibMonotone Final NoForkBelowLib LibQuorum RestoreEqualsRecompute
+INVARIANTS TypeOK LibOnMain ConfirmsOnMain ProposalsOnMain StatusBestIsBest Agreement HonestConfirms
+PROPERTIES LibMonotone Final NoForkBelowLib LibQuorum RestoreEqualsRecompute AfterAbandonedReorgStatusMatchesMainChain
 CHECK_DEADLOCK FALSE
